@@ -115,6 +115,18 @@ def _work(arg):
                 'span': None, 'file': None, 'sha256': None, 'exits': {}, 'dead_branches': []}
 
 
+def sources_hash():
+    """sha256 over the source files of the package under verification"""
+    import hashlib
+    h = hashlib.sha256()
+    root = os.path.join(REPO, 'billiard')
+    for fn in sorted(os.listdir(root)):
+        if fn.endswith('.py'):
+            with open(os.path.join(root, fn), 'rb') as fh:
+                h.update(fn.encode() + b'\0' + fh.read())
+    return h.hexdigest()
+
+
 def sanitize(s):
     return re.sub(r'[^A-Za-z0-9_.-]+', '_', s)[:150]
 
@@ -265,13 +277,32 @@ def main(argv):
     # ---- baseline (vacuity / shrinkage guard)
     base_path = os.path.join(HERE, 'baselines', prop + '.json')
     shrink = []
+    counts = {}
+    for r in results:
+        for o in r['obligations']:
+            k = r['qualname'] + '/' + o['name']
+            counts[k] = counts.get(k, 0) + 1
+    src_hash = sources_hash()
     if os.environ.get('PYVC_WRITE_BASELINE'):
         os.makedirs(os.path.dirname(base_path), exist_ok=True)
-        json.dump(sorted(names), open(base_path, 'w'), indent=0)
+        json.dump({'names': sorted(names), 'counts': counts, 'sources_sha256': src_hash},
+                  open(base_path, 'w'), indent=0, sort_keys=True)
     if only:
         pass
     elif os.path.exists(base_path):
-        base = set(json.load(open(base_path)))
+        bj = json.load(open(base_path))
+        if isinstance(bj, list):
+            bj = {'names': bj}
+        base = set(bj['names'])
+        if bj.get('sources_sha256') == src_hash and bj.get('counts') and not any(
+                e[1][0] in ('unsupported', 'missing', 'contract', 'internal') for e in errors):
+            # same source text as when the baseline was taken: the run must
+            # generate exactly the same obligations (guards against paths being
+            # lost silently, e.g. by an inconsistent assumption in the engine)
+            diff = [k for k in set(counts) | set(bj['counts']) if counts.get(k, 0) != bj['counts'].get(k, 0)]
+            if diff:
+                errors.append((prop, ('vacuity', 'same sources as the baseline but %d obligation counts differ, e.g. %s' % (
+                    len(diff), [(k, bj['counts'].get(k, 0), counts.get(k, 0)) for k in sorted(diff)[:3]]))))
         hard_err = any(e[1][0] in ('unsupported', 'missing', 'contract', 'internal') for e in errors)
         if not hard_err:
             # names that vanish because a path became infeasible after a code
